@@ -122,7 +122,17 @@ func vfDlgRender(c vfDlgConc, v int, rnd func(int) int) ([]byte, string) {
 	cls += c1 + c2
 	fn, tn, cn := "From", "To", "Call-ID"
 	if v&vfDlgCompact != 0 {
-		fn, tn, cn = "f", "t", "i"
+		// compact names, in either letter case; or the long names in odd case (header names are case-insensitive)
+		switch rnd(4) {
+		case 0:
+			fn, tn, cn = "f", "t", "i"
+		case 1:
+			fn, tn, cn = "F", "T", "I"
+		case 2:
+			fn, tn, cn = "f", "T", "CALL-ID"
+		default:
+			fn, tn, cn = "FROM", "to", "call-id"
+		}
 		cls += "compact,"
 	}
 	var sb bytes.Buffer
